@@ -239,4 +239,90 @@ func ruleE(e *Env, rule string) {
 		}
 	}
 	e.R.Analysed["error_yielding_call_sites"] = n
+	nilErrorUse(e, rule)
+}
+
+// nilErrorUse: contradiction rule on error tests. On the edge of `err != nil` / `err == nil` where err is
+// known to be nil, err is neither returned as the function's error (next to zero results) nor handed to a
+// wrapper: `if err == nil { return nil, wrap(err) }` reports success for the failing case and fails (with a
+// nil error and no value) for the succeeding one — an inverted error test.
+func nilErrorUse(e *Env, rule string) {
+	n, bad := 0, 0
+	for _, fn := range e.P.Funcs() {
+		if isGeneratedFn(e.P, rootFn(fn)) {
+			continue
+		}
+		for _, b := range fn.Blocks {
+			iff, ok := b.Instrs[len(b.Instrs)-1].(*ssa.If)
+			if !ok {
+				continue
+			}
+			v, nonNilOnTrue, ok := nilTest(iff.Cond)
+			if !ok || !isErrorType(v.Type()) {
+				continue
+			}
+			if _, isCall := rootOfError(v).(*ssa.Call); !isCall {
+				continue
+			}
+			n++
+			nilSucc := b.Succs[0]
+			if nonNilOnTrue {
+				nilSucc = b.Succs[1]
+			}
+			if len(nilSucc.Preds) != 1 {
+				continue
+			}
+			for _, d := range fn.Blocks {
+				if !nilSucc.Dominates(d) {
+					continue
+				}
+				for _, ins := range d.Instrs {
+					use := ""
+					switch x := ins.(type) {
+					case *ssa.Return:
+						if len(x.Results) >= 2 && x.Results[len(x.Results)-1] == v {
+							zero := true
+							for _, rv := range x.Results[:len(x.Results)-1] {
+								if k, isK := rv.(*ssa.Const); !isK || !(k.Value == nil || k.IsNil()) {
+									zero = false
+								}
+							}
+							if zero {
+								use = "returned next to zero results"
+							}
+						}
+					case ssa.CallInstruction:
+						name := callName(x.Common())
+						if strings.Contains(name, "grouperror.Prefix") || name == "fmt.Errorf" || strings.HasPrefix(name, "errors.") {
+							for _, a := range x.Common().Args {
+								if a == v {
+									use = "wrapped by " + name
+								}
+								for _, va := range varargs(a) {
+									if unwrap(va) == v {
+										use = "wrapped by " + name
+									}
+								}
+							}
+						}
+					}
+					if use != "" {
+						bad++
+						e.R.Violate(rule, e.P.FuncKey(fn)+"#nil-error-"+strings.Fields(use)[0], "on this edge the error is known to be nil, yet it is "+use+": the error test is inverted (the failing case continues, the succeeding one returns no value and no error)", nil, e.P.Pos(ins.Pos()))
+					}
+				}
+			}
+		}
+	}
+	if bad == 0 {
+		e.R.Hold(rule, "module#error-tests-not-inverted", fmt.Sprintf("%d tests of an error returned by a call: on the nil edge the error is never wrapped or returned as the failure", n))
+	}
+}
+
+// rootOfError: the call (or other value) an error value comes from, through Extract.
+func rootOfError(v ssa.Value) ssa.Value {
+	if ex, ok := v.(*ssa.Extract); ok {
+		return ex.Tuple
+	}
+	return v
 }
